@@ -282,10 +282,7 @@ package parser
 //@   loop 1 invariant forall j int :: 0 <= j && j < iter1 ==> groupKey(es[j].key.Value, schema)
 //@   loop 1 invariant forall k int :: 0 <= k && k < iter1 ==> has(setKeys, es[k].key.Value)
 //@   loop 1 invariant has(setKeys, "name") ==> group.Name != ""
-// (the label loop below establishes this when it ends - loop 2's invariants are proved; that parsing the group's other
-// keys afterwards leaves the label nodes alone is a frame the engine cannot derive for newYamlMap's own list and is
-// assumed: listed in the evidence)
-//@   loop 1 assumed invariant group.Labels != nil ==> (forall i int :: 0 <= i && i < len(group.Labels.Items) ==> okLabel(group.Labels.Items[i]))
+//@   loop 1 invariant group.Labels != nil ==> (forall i int :: 0 <= i && i < len(group.Labels.Items) ==> okLabel(group.Labels.Items[i]))
 //@   loop 2 invariant 0 <= iter2 && iter2 <= len(group.Labels.Items) && group.Error.Err == nil && group.Labels != nil
 //@   loop 2 invariant forall i int :: 0 <= i && i < iter2 ==> okLabel(group.Labels.Items[i])
 //@   loop 1 invariant forall i, j int :: 0 <= i && i < j && j < iter1 ==> es[i].key.Value != es[j].key.Value
